@@ -183,6 +183,11 @@ func (e *Enc) EncodeTop() {
 	if c == nil {
 		return
 	}
+	for _, cs := range c.CallSites {
+		if !e.csHit[cs.Callee+" "+cs.Clause.Label] {
+			e.problem("callsite %s %s: no call of %s is encoded (clause generates no obligation)", cs.Callee, cs.Clause.Label, cs.Callee)
+		}
+	}
 	// every return block reachable (cover), conjoined goal per ensures clause
 	if len(rets) > 0 {
 		var conds []Term
@@ -318,6 +323,13 @@ func (e *Enc) frameObligations(c *Contract, env *CEnv, rets []*Exit) {
 				}
 			}
 		case *CCall:
+			if n.Fn == "cells" && len(n.Args) == 1 {
+				if id, ok := n.Args[0].(*CIdent); ok {
+					if t, err := env.resolveType(id.Name); err == nil {
+						get(e.cellKey(e.sortOf(t))).all = true
+					}
+				}
+			}
 			if n.Fn == "mapof" && len(n.Args) == 1 {
 				if xv, err := entryEnv.eval(n.Args[0]); err == nil && xv.T != nil {
 					if mt, ok := xv.T.Underlying().(*types.Map); ok {
